@@ -33,6 +33,21 @@ func runFindContent(w *tracelog.Writer, cases []map[string]any, seed int64, reps
 	}
 	var mu sync.Mutex
 	var firstErr error
+	// concurrent transfers: several large find-contents at once between the same nodes (connection ids and streams must not
+	// be mixed up), from one or two askers
+	nconc := 6 * reps
+	parallel(nconc, workers, func(i int) {
+		evs, err := findContentConcurrent(seed*7368787+int64(i), i)
+		mu.Lock()
+		defer mu.Unlock()
+		if err != nil && firstErr == nil {
+			firstErr = err
+		}
+		for _, ev := range evs {
+			ev["t"] = 100000 + i
+			w.Emit(ev)
+		}
+	})
 	parallel(len(jobs), workers, func(i int) {
 		ev, err := findContentScenario(jobs[i].c, seed*1000003+int64(i), jobs[i].rep)
 		mu.Lock()
@@ -46,6 +61,113 @@ func runFindContent(w *tracelog.Writer, cases []map[string]any, seed int64, reps
 		}
 	})
 	return firstErr
+}
+
+func findContentConcurrent(seed int64, t int) ([]map[string]any, error) {
+	rng := common.Rng(seed)
+	sw := netsim.NewSwitch()
+	vs := [][]uint8{{0}, {1}, {0, 1}}
+	vb := vs[rng.Intn(3)]
+	B, err := netsim.NewNode(sw, netsim.NodeOpts{IP: "10.0.0.2", Port: 9002, Versions: vb, MaxUtp: 16})
+	if err != nil {
+		return nil, err
+	}
+	defer B.Stop()
+	nask := 1 + t%2
+	var askers []*netsim.Node
+	var avs [][]uint8
+	for a := 0; a < nask; a++ {
+		va := vs[rng.Intn(3)]
+		if va[len(va)-1] == 1 && len(va) == 1 && len(vb) == 1 && vb[0] == 0 || len(va) == 1 && va[0] == 0 && len(vb) == 1 && vb[0] == 1 {
+			va = []uint8{0, 1} // keep a common version
+		}
+		A, err := netsim.NewNode(sw, netsim.NodeOpts{IP: fmt.Sprintf("10.0.0.%d", 11+a), Port: uint16(9011 + a), Versions: va, MaxUtp: 16})
+		if err != nil {
+			return nil, err
+		}
+		defer A.Stop()
+		askers = append(askers, A)
+		avs = append(avs, va)
+	}
+	n := 3 + rng.Intn(4)
+	type req struct {
+		key, content []byte
+		a            int
+	}
+	reqs := make([]req, n)
+	for i := range reqs {
+		k := make([]byte, 2+rng.Intn(40))
+		rng.Read(k)
+		c := make([]byte, 1177+rng.Intn(40000))
+		if i%3 == 2 {
+			c = make([]byte, rng.Intn(1176)) // an inline answer among the streams
+		}
+		rng.Read(c)
+		cid := sha256.Sum256(k)
+		if err := B.Store.Put(k, cid[:], c); err != nil {
+			return nil, err
+		}
+		reqs[i] = req{k, c, i % nask}
+	}
+	mark := sw.Mark()
+	out := make([]map[string]any, n)
+	var wg sync.WaitGroup
+	for i := range reqs {
+		wg.Add(1)
+		go func(i int) {
+			defer wg.Done()
+			r := reqs[i]
+			ints := func(v []uint8) []int {
+				o := []int{}
+				for _, x := range v {
+					o = append(o, int(x))
+				}
+				return o
+			}
+			ev := map[string]any{"ev": "findcontent", "case": map[string]any{"kind": "conc", "stored": true, "size": len(r.content), "va": ints(avs[r.a]), "vb": ints(vb),
+				"asker": "any", "table": "empty", "enr": "min", "link": "clean", "common": 0, "n": n, "askers": nask},
+				"stored": true, "size": len(r.content), "slen": len(r.content), "stag": common.Tag(r.content), "kind": "noobs", "len": 0, "tag": 0,
+				"maxdg": 0, "enrs": []map[string]any{}, "table": []map[string]any{}, "asker_in_table": false, "detail": "", "common": 0}
+			type res struct {
+				flag byte
+				data []byte
+				err  error
+			}
+			ch := make(chan res, 1)
+			go func() {
+				flag, v, err := portalwire.VerifFindContent(askers[r.a].P, B.P.Self(), r.key)
+				d, _ := v.([]byte)
+				ch <- res{flag, d, err}
+			}()
+			select {
+			case x := <-ch:
+				switch {
+				case x.err != nil:
+					ev["kind"], ev["detail"] = "err", x.err.Error()
+				case x.flag == portalwire.ContentRawSelector:
+					ev["kind"], ev["len"], ev["tag"] = "raw", len(x.data), common.Tag(x.data)
+				case x.flag == portalwire.ContentConnIdSelector:
+					ev["kind"], ev["len"], ev["tag"] = "utp", len(x.data), common.Tag(x.data)
+				default:
+					ev["kind"] = "enrs"
+				}
+			case <-time.After(30 * time.Second):
+				ev["detail"] = "no result within 30 s (slowness is never a verdict)"
+			}
+			out[i] = ev
+		}(i)
+	}
+	wg.Wait()
+	maxdg := 0
+	for _, d := range sw.Since(mark) {
+		if d.From == B.Addr && d.Size > maxdg {
+			maxdg = d.Size
+		}
+	}
+	for _, ev := range out {
+		ev["maxdg"] = maxdg
+	}
+	return out, nil
 }
 
 func findContentScenario(c map[string]any, seed int64, rep int) (map[string]any, error) {
